@@ -184,7 +184,8 @@ class NP(_Stub):
 
     def linspace(self, start, stop, num=50, endpoint=True, dtype=None):
         _use("numpy.linspace")
-        if not (dtype is int and endpoint is True and isinstance(start, int) and start == 0):
+        if not (getattr(dtype, "__name__", "") in ("int", "_b_int") and endpoint is True and isinstance(start, int)
+                and start == 0):
             raise OutOfReach("np.linspace signature not modelled")
         # trusted contract (measured, DESIGN C11): ids[0]=0, ids[num-1]=stop (num>=2),
         # x_k - 1 <= ids[k] <= x_k with x_k = k*stop/(num-1), non-decreasing
@@ -201,7 +202,9 @@ class NP(_Stub):
         c.assume(SB(z3.Implies(num_t >= 2, f(num_t - 1) == stop_t)))
         c.assume(SB(z3.ForAll([k, j], z3.Implies(z3.And(0 <= k, k < j, j < num_t), f(k) <= f(j)),
                               patterns=[z3.MultiPattern(f(k), f(j))])))
-        return SArr((num, ), lambda q: wrap(f(_term(q))), "int")
+        r = SArr((num, ), lambda q: wrap(f(_term(q))), "int")
+        c.ghost["linspace_result"] = r
+        return r
 
     # ---- element-wise ----------------------------------------------------
     def _ew1(self, x, f):
@@ -478,7 +481,10 @@ class NP(_Stub):
             for s, o in reversed(list(zip(segs[:-1], offs[:-1]))):
                 r = sym.ite_any(k < o + s[0], s[1](k - o), r)
             return r
-        return SArr((total, ) + tuple(segs[0][2]), get, kind)
+        r = SArr((total, ) + tuple(segs[0][2]), get, kind)
+        if kind == "int":
+            cur().ghost["concat_bounds"] = r
+        return r
 
     def append(self, a, b):
         _use("numpy.append")
@@ -497,7 +503,9 @@ class NP(_Stub):
         if a:
             raise OutOfReach("3-argument np.where")
         if isinstance(cond, SArr) and cond.ndim == 1:
-            return (filtered_indices(cond.shape[0], cond._cell[0]), )
+            r = filtered_indices(cond.shape[0], cond._cell[0])
+            cur().ghost["where_result"] = r
+            return (r, )
         raise OutOfReach("np.where on concrete arrays")
 
     def roll(self, a, shift, axis=None):
